@@ -46,7 +46,7 @@ def _eval(chk, tag, terms, fn, what, cases, can_eval, shard=1500):
 
 # ===================================================================================== AdministrativeInformation
 S_VALID = ["1", "23"]
-S_BAD = ["01", "12345", "a", "1.0", "٣"]
+S_BAD = ["01", "12345", "a", "1.0", "٣", "1\n", "999\n", "\n1", " 1"]
 
 
 def s_val(a):
@@ -175,7 +175,8 @@ def bee_wf(o):
 def bee_enc(o):
     from basyx.aas import model
     lu = o.last_update
-    return [1 if o.direction is model.Direction.INPUT else 0, 0 if o.max_interval is None else 1,
+    mi = o.max_interval
+    return [1 if o.direction is model.Direction.INPUT else 0, 0 if mi is None else (2 if bool(mi) else 1),
             0 if lu is None else 1 if lu.tzname() == "UTC" else 2]
 
 
@@ -186,7 +187,12 @@ def bee_run(case, rng_pick):
     d, u, m, ops = case
     LU = lu_values()
     mref = model.ModelReference((model.Key(model.KeyTypes.SUBMODEL, "x"),), model.Submodel)
-    dur = rd.relativedelta(seconds=5)
+    # "zero": present but falsy (relativedelta.__bool__ is False for a zero-length duration)
+    DUR = {"none": [None], "pos": [rd.relativedelta(seconds=5), rd.relativedelta(minutes=10), rd.relativedelta(days=-1)],
+           "zero": [rd.relativedelta(), rd.relativedelta(seconds=0), rd.relativedelta(hours=1, minutes=-60)]}
+
+    def mval(x):
+        return DUR[x][rng_pick % len(DUR[x])]
 
     def dval(x):
         return model.Direction.INPUT if x else model.Direction.OUTPUT
@@ -195,7 +201,7 @@ def bee_run(case, rng_pick):
         return LU[x][rng_pick % len(LU[x])]
     try:
         o = model.BasicEventElement("e", mref, dval(d), model.StateOfEvent.ON, last_update=uval(u),
-                                    max_interval=dur if m else None)
+                                    max_interval=mval(m))
     except Exception as e:  # noqa
         code = enc_exc(e)
         return [[code]], (None if code == 1 else (-1, f"constructor raised {type(e).__name__}"))
@@ -210,7 +216,7 @@ def bee_run(case, rng_pick):
             if what == "direction":
                 o.direction = dval(x)
             elif what == "max_interval":
-                o.max_interval = dur if x else None
+                o.max_interval = mval(x)
             else:
                 o.last_update = uval(x)
             code = 0
@@ -230,22 +236,23 @@ def bee_run(case, rng_pick):
 
 def frag_bee(chk, can_eval):
     rng = chk.rng
-    alpha = [("direction", True), ("direction", False), ("max_interval", True), ("max_interval", False),
-             ("last_update", "none"), ("last_update", "utc"), ("last_update", "other")]
+    alpha = [("direction", True), ("direction", False), ("max_interval", "pos"), ("max_interval", "none"),
+             ("max_interval", "zero"), ("last_update", "none"), ("last_update", "utc"), ("last_update", "other")]
     cases = []
-    exh = 3 if chk.tier == "quick" else 5
+    exh = 3 if chk.tier == "quick" else 4
     for d in (True, False):
         for u in ("none", "utc", "other"):
-            for m in (True, False):
+            for m in ("pos", "none", "zero"):
                 for L in range(0, exh + 1):
                     for seq in itertools.product(alpha, repeat=L):
                         cases.append((d, u, m, list(seq)))
-    chk.cov["bee_exhaustive"] = f"all setter sequences of length <= {exh} over 7 assignments from all 12 constructor argument triples: {len(cases)}"
+    chk.cov["bee_exhaustive"] = f"all setter sequences of length <= {exh} over 8 assignments (max_interval: None / zero-length (falsy) / non-zero Duration) from all 18 constructor argument triples: {len(cases)}"
     for _ in range(200 if chk.tier == "quick" else 3000):
-        cases.append((rng.random() < .5, rng.choice(["none", "utc", "other"]), rng.random() < .5,
+        cases.append((rng.random() < .5, rng.choice(["none", "utc", "other"]), rng.choice(["pos", "none", "zero"]),
                       [rng.choice(alpha) for _ in range(rng.randint(1, 12))]))
     terms = []
     cu = {"none": "UNone", "utc": "UUtc", "other": "UOther"}
+    cm = {"none": "PNone", "zero": "PFalsy", "pos": "PTruthy"}
     for i, case in enumerate(cases):
         tr, fail = bee_run(case, i)
         chk.seen(("bee", repr(case)), nontrivial=len(case[3]) >= 2)
@@ -254,7 +261,13 @@ def frag_bee(chk, can_eval):
             k, msg = fail
             small = _shrink(case[3][:k + 1], lambda o: bee_run((case[0], case[1], case[2], o), i)[1] is not None)
             k2, msg2 = bee_run((case[0], case[1], case[2], small), i)[1]
-            chk.fail(f"C02:BasicEventElement:{small[k2][0] if k2 >= 0 else 'ctor'}:{msg2.split(':')[0][:40]}", msg2,
+            arg = ""
+            if k2 >= 0 and small[k2][0] == "max_interval":
+                arg = ":" + str(small[k2][1])
+            elif k2 < 0 or small[k2][0] == "direction":
+                arg = ":max_interval=" + str(case[2] if not [o for o in small[:max(k2, 0)] if o[0] == "max_interval"]
+                                             else [o for o in small[:k2] if o[0] == "max_interval"][-1][1])
+            chk.fail(f"C02:BasicEventElement:{small[k2][0] if k2 >= 0 else 'ctor'}{arg}:{msg2.split(':')[0][:40]}", msg2,
                      {"kind": "bee", "case": [case[0], case[1], case[2], [list(o) for o in small]], "pick": i})
         d, u, m, ops = case
 
@@ -262,9 +275,9 @@ def frag_bee(chk, can_eval):
             if o[0] == "direction":
                 return f"SetDirection {'true' if o[1] else 'false'}"
             if o[0] == "max_interval":
-                return f"SetMaxInterval {'true' if o[1] else 'false'}"
+                return f"SetMaxInterval {cm[o[1]]}"
             return f"SetLastUpdate {cu[o[1]]}"
-        terms.append(f"({'true' if d else 'false'}, {cu[u]}, {'true' if m else 'false'}, " + coq_list([cop(o) for o in ops], "bop")
+        terms.append(f"({'true' if d else 'false'}, {cu[u]}, {cm[m]}, " + coq_list([cop(o) for o in ops], "bop")
                      + f", {coq_z(common.zhash_d(tr, 2))})")
     _eval(chk, "C02bee", terms, "check_bee_case", "BasicEventElement", cases, can_eval, shard=3000)
 
@@ -545,7 +558,10 @@ def frag_values(chk):
               b"ab", bytearray(b"cd"), True, False, datetime.date(2020, 1, 2), datetime.datetime(2020, 1, 2, 3, 4, tzinfo=utc),
               datetime.datetime(2020, 1, 2, 3, 4), datetime.time(1, 2, 3), rd.relativedelta(days=1), decimal.Decimal("1.5"),
               dt.Int(5), dt.Float(1.5), dt.NormalizedString("n"), dt.GYear(2000), dt.Byte(-1), dt.UnsignedByte(200),
-              dt.Base64Binary(b"x"), dt.AnyURI("urn:x"), [1], object()]
+              dt.Base64Binary(b"x"), dt.AnyURI("urn:x"), [1], object(),
+              # present but falsy: every "value is set" premise must treat them as set
+              0.0, b"", bytearray(), rd.relativedelta(), decimal.Decimal(0), dt.Int(0), dt.Float(0.0), dt.Base64Binary(b""),
+              dt.NormalizedString(""), dt.AnyURI(""), datetime.time(0, 0), "s\n"]
     bounds = {getattr(dt, n): b for n, b in XSD_BOUNDS.items() if n != "Integer"}
 
     def consistent(v, t):
@@ -577,6 +593,10 @@ def frag_values(chk):
             try:
                 o = mk(t, v)
                 for a in attrs_:
+                    if v is not None and getattr(o, a) is None:
+                        chk.fail(f"C02:value:{hname}:ctor:falsy-lost", f"{hname}(value_type={t.__name__}, {a}={v!r}) accepted "
+                                 "but the attribute is None (a present value was treated as absent)",
+                                 {"kind": "value", "holder": hname, "type": t.__name__, "value": repr(v)})
                     if not consistent(getattr(o, a), t):
                         chk.fail(f"C02:value:{hname}:ctor:{sig_t}", f"{hname}(value_type={t.__name__}, {a}={v!r}) accepted; "
                                  f"stored {getattr(o, a)!r} is not a valid {t.__name__}",
@@ -591,6 +611,10 @@ def frag_values(chk):
             for a in attrs_:
                 e = call(lambda: setattr(o, a, v))
                 cur = getattr(o, a)
+                if e is None and v is not None and cur is None:
+                    chk.fail(f"C02:value:{hname}:set:falsy-lost", f"{hname}.{a} = {v!r} with value_type {t.__name__} accepted "
+                             "but the attribute is None afterwards (a present value was treated as absent)",
+                             {"kind": "value", "holder": hname, "type": t.__name__, "value": repr(v)})
                 if e is None and not consistent(cur, t):
                     chk.fail(f"C02:value:{hname}:set:{sig_t}", f"{hname}.{a} = {v!r} with value_type {t.__name__} accepted; stored {cur!r}",
                              {"kind": "value", "holder": hname, "type": t.__name__, "value": repr(v)})
